@@ -13,6 +13,9 @@
    form, when it pays itself), made after the last change they cover; every sender signature must have been made in the
    scheme of the transaction's form and cover the gasPayer member as submitted; the box sender must have signed exactly
    the sub-transaction that is carried.  The signers that count are those registered NOW, not those of the stable block.
+   A payer's statement counts only when it was made over the very list of sender signatures that is submitted (c.over: not
+   over its first element, a prefix, a re-ordering, or the list of another transaction some signature of which also stands
+   in this one); the carrier the node read the transaction from (c.via: RLP / JSON) is no part of the judgement.
    Demanded:   any effect  =>  Authorized (Auth.tla) for the signers registered before the step;
                Canonical /\ Authorized /\ well-formed  =>  packaged / accepted  (the check is not vacuous);
                the effect, when there is one, is that of the submitted content (paid by the account the submitted
